@@ -12,6 +12,7 @@ mod edit;
 mod lossy;
 mod pgp;
 mod rel;
+mod relspec;
 mod total;
 mod wrap;
 mod util;
@@ -77,6 +78,8 @@ fn generate(prop: &str, tier: &str, seed: u64, out: &mut util::Out) {
         "C08" => lossy::generate_c08(tier, seed, out),
         "C09" => rel::generate_c09(tier, seed, out),
         "C10pre" => rel::generate_c10pre(tier, seed, out),
+        "C10" => rel::generate_c10(tier, seed, out),
+        "C14pre" => rel::generate_c14pre(tier, seed, out),
         _ => {}
     }
 }
